@@ -125,8 +125,8 @@ package strategy
 //@ typeinv BuyAndHoldStrategy :: warmup(self) == 0
 //@ func BuyAndHoldStrategy.Compute
 //@ requires consumed(snapshots) == 0
-//@ ensures[C05,C06] len(result) == len(snapshots)
-//@ ensures[C05,C06] forall k :: 0 <= k && k < len(result) ==> result[k] == (k == 0 ? Buy : Hold)
+//@ ensures[C05,C06,C08] len(result) == len(snapshots)
+//@ ensures[C05,C06,C08] forall k :: 0 <= k && k < len(result) ==> result[k] == (k == 0 ? Buy : Hold)
 //@ ensures[C03] consumed(snapshots) == len(snapshots) && closed(result)
 //@ ensures[C04] forall k :: 0 <= k && k < len(result) ==> hor(result, k) <= hor(snapshots, k)
 //@ loop#0 invariant consumed(closings) == sent(actions) && sent(actions) >= 1 && !closed(actions)
